@@ -7,6 +7,7 @@
 package crash
 
 import (
+	"errors"
 	"fmt"
 	"os"
 	"strconv"
@@ -19,6 +20,8 @@ var (
 	mu      sync.Mutex
 	count   int
 	crashAt int
+	failAt  int
+	failed  bool
 	armed   bool
 	trace   []string
 )
@@ -30,11 +33,12 @@ const ExitCode = 77
 // (so that boot-time writes of a fresh store are not crash points unless wanted).
 func InstallFromEnv() {
 	crashAt, _ = strconv.Atoi(os.Getenv("VERIF_CRASH_AT"))
-	leveldb.VerifWriteHook = func(path, kind string, b *leveldb.Batch, key, value []byte) {
+	failAt, _ = strconv.Atoi(os.Getenv("VERIF_FAIL_AT"))
+	leveldb.VerifWriteHook = func(path, kind string, b *leveldb.Batch, key, value []byte) error {
 		mu.Lock()
 		defer mu.Unlock()
 		if !armed {
-			return
+			return nil
 		}
 		count++
 		if len(trace) < 4000 {
@@ -51,8 +55,19 @@ func InstallFromEnv() {
 		if crashAt > 0 && count == crashAt {
 			os.Exit(ExitCode)
 		}
+		if failAt > 0 && count == failAt {
+			failed = true
+			return ErrInjected // the write is not performed; the process goes on
+		}
+		return nil
 	}
 }
+
+// ErrInjected is what physical write number VERIF_FAIL_AT returns instead of writing.
+var ErrInjected = errors.New("injected I/O error (verification harness)")
+
+// Failed reports whether the injected write error has been delivered.
+func Failed() bool { mu.Lock(); defer mu.Unlock(); return failed }
 
 func Arm()            { mu.Lock(); armed = true; mu.Unlock() }
 func Disarm()         { mu.Lock(); armed = false; mu.Unlock() }
